@@ -18,6 +18,8 @@ import (
 	"go/types"
 	"sort"
 	"strings"
+
+	"golang.org/x/tools/go/cfg"
 )
 
 // seqElem: e is p[ix] or p.Out(ix)/p.In(ix) for a parameter p; returns p and ix.
@@ -552,4 +554,161 @@ func c08r9(c *RC) {
 		c.Check(okM, fn.QName()+"|shape-from-construction-data", pr.Pos(fn.Decl.Pos()), "a method that determines the shape of the task graph "+why+": its answer depends on the state of the process that asks (cache contents, files, time), so the driver and a worker that compiles later build different graphs for the same invocation")
 	}
 	c.Floor("shape methods of Slice implementations", n, 60)
+}
+
+// c10r9: a merge cursor (sortio.FrameBuffer.Index) moves only past a row that
+// was taken.  The merging readers look at the row under the cursor of the
+// smallest buffer, hand it on, and advance.  On every path to an increment of
+// a FrameBuffer's Index, since the previous increment, some statement must
+// have read the row at a FrameBuffer's Index (directly, or through a local
+// bound to it) - otherwise a row is consumed without ever reaching the output.
+func c10r9(c *RC) {
+	pr := c.P
+	n := 0
+	for _, fn := range readerFuncs(pr) {
+		if fn.Body == nil || fn.Parent != nil {
+			continue
+		}
+		isCursor := func(e ast.Expr) bool {
+			sel, ok := ast.Unparen(e).(*ast.SelectorExpr)
+			return ok && pr.fieldQName(fn.Pkg.FieldOf(sel)) == "sortio.FrameBuffer.Index"
+		}
+		var incs []*ast.IncDecStmt
+		inspectNoLit(fn.Body, func(nd ast.Node) bool {
+			if s, ok := nd.(*ast.IncDecStmt); ok && s.Tok == token.INC && isCursor(s.X) {
+				incs = append(incs, s)
+			}
+			return true
+		})
+		if len(incs) == 0 {
+			continue
+		}
+		// locals bound to a cursor
+		le := newLinEnv(pr, fn)
+		alias := map[types.Object]bool{}
+		for o, d := range le.defs {
+			if isCursor(d) {
+				alias[o] = true
+			}
+		}
+		rowIsCursor := func(e ast.Expr) bool {
+			if isCursor(e) {
+				return true
+			}
+			if id, ok := ast.Unparen(e).(*ast.Ident); ok {
+				return alias[fn.Pkg.Info.Uses[id]]
+			}
+			return false
+		}
+		takesRow := func(nd ast.Node) bool {
+			hit := false
+			inspectNoLit(nd, func(m ast.Node) bool {
+				k, ok := m.(*ast.CallExpr)
+				if !ok {
+					return true
+				}
+				switch fn.Pkg.CalleeName(k) {
+				case "frame.Frame.Index":
+					if len(k.Args) == 2 && rowIsCursor(k.Args[1]) {
+						hit = true
+					}
+				case "frame.Frame.Slice":
+					if len(k.Args) == 2 && rowIsCursor(k.Args[0]) {
+						hit = true
+					}
+				}
+				return true
+			})
+			// a statement whose only effect is to discard the row does not take it
+			if es, ok := nd.(*ast.AssignStmt); ok && hit {
+				all := true
+				for _, l := range es.Lhs {
+					if expr(l) != "_" {
+						all = false
+					}
+				}
+				if all {
+					hit = false
+				}
+			}
+			return hit
+		}
+		fl := pr.Flow(fn)
+		for i, inc := range incs {
+			n++
+			good := true
+			var trail []string
+			// the unit of work: the innermost loop around the advance that also takes rows
+			var unit ast.Stmt
+			path := pathTo(fn.Body, inc)
+			for j := len(path) - 1; j >= 0 && unit == nil; j-- {
+				var body *ast.BlockStmt
+				switch l := path[j].(type) {
+				case *ast.ForStmt:
+					body = l.Body
+				case *ast.RangeStmt:
+					body = l.Body
+				}
+				if body == nil {
+					continue
+				}
+				has := false
+				for _, st := range body.List {
+					inspectNoLit(st, func(m ast.Node) bool {
+						if _, isStmt := m.(ast.Stmt); isStmt && takesRow(m) {
+							has = true
+						}
+						return !has
+					})
+				}
+				if has {
+					unit = path[j].(ast.Stmt)
+				}
+			}
+			if unit == nil {
+				c.Check(false, fmt.Sprintf("%s|row-taken-before-cursor-moves#%d", fn.QName(), i+1), pr.Pos(inc.Pos()), "the merge cursor "+nospace(inc.X)+" is advanced in a loop that never reads the row under a cursor: rows are consumed without ever reaching the output")
+				continue
+			}
+			fl.Walk(fl.Entry(), "", nil, Visitor{NoFacts: true,
+				Enter: func(from, to *cfg2Block, st string, s *Step) (string, bool) {
+					if to.Stmt == unit && (to.Kind == cfg.KindForBody || to.Kind == cfg.KindRangeBody) {
+						return "", false
+					}
+					return st, false
+				},
+				Node: func(nd ast.Node, st string, s *Step) (string, bool) {
+					if !good {
+						return st, true
+					}
+					if _, isStmt := nd.(ast.Stmt); isStmt && takesRow(nd) {
+						return "taken", false
+					}
+					if nd == ast.Node(inc) && st != "taken" {
+						good, trail = false, s.Trail()
+						return st, true
+					}
+					return st, false
+				}})
+			c.Check(good, fmt.Sprintf("%s|row-taken-before-cursor-moves#%d", fn.QName(), i+1), pr.Pos(inc.Pos()), "the merge cursor "+nospace(inc.X)+" is advanced on a path where the row under it was not read since the last advance: that row is consumed without ever reaching the output", trail...)
+		}
+	}
+	c.Floor("merge cursor advances", n, 3)
+}
+
+// c09r11: no error of the combiner, spiller or sort machinery is swallowed by
+// a shadowing redeclaration of a named error result.
+func c09r11(c *RC) {
+	pr := c.P
+	var fns []*Func
+	for _, fn := range pr.Funcs() {
+		if fn.Decl == nil || strings.HasSuffix(pr.RelFile(fn.Decl.Pos()), "_test.go") {
+			continue
+		}
+		if rel := fn.Pkg.Rel; strings.HasPrefix(rel, "cmd/") || strings.HasPrefix(rel, "analysis") || strings.HasPrefix(rel, "example") {
+			continue
+		}
+		fns = append(fns, fn)
+	}
+	n := shadowedErrorResult(c, fns, "shadowed-error-leaves-its-scope")
+	c.Note("shadowing error definitions examined: %d", n)
 }
